@@ -276,6 +276,14 @@ class VCoro(V):
         self.label = label
 
 
+class VStar(V):
+    """`*expr` in a call where expr is a symbolic iterable (passed through to contracts as one item)"""
+    kind = "star"
+
+    def __init__(self, value):
+        self.value = value
+
+
 class VClass(V):
     kind = "class"
 
@@ -328,7 +336,7 @@ def sort_of_type(t) -> z3.SortRef:
         return z3.RealSort()
     if k in ("str", "bytes"):
         return z3.StringSort()
-    if k == "obj":
+    if k in ("obj", "symobj"):
         return obj_sort(t[1])
     if k == "opaque" or k == "func":
         return Opaque
@@ -350,7 +358,7 @@ def wrap(t, term) -> V:
         return VStr(term)
     if k == "bytes":
         return VBytes(term)
-    if k == "obj":
+    if k in ("obj", "symobj"):
         return VObj(t[1], term)
     if k == "opaque":
         return VOpaque(term)
